@@ -720,10 +720,12 @@ func run(raw json.RawMessage) lib.Case {
 	kt.finish()
 
 	items := make([]string, n)
+	unstable := false // some recomputation differed: the replay keeps the whole group
 	switch in.Kind {
 	case "rosters":
 		for i, r := range in.Rosters {
 			runs := []string{first[i], newRosterID(r), fresh[i]}
+			unstable = unstable || !allSame(runs)
 			alt := []string{getRosterID(r)}
 			items[i] = "(" + coqRoster(kt, r) + ", " + coqObs(runs, alt, rosterOracle(r)) + ")"
 		}
@@ -731,6 +733,7 @@ func run(raw json.RawMessage) lib.Case {
 		for i, t := range in.Trees {
 			_, rid := treeRoster(&in, t)
 			runs := []string{first[i], newTreeID(&in, t), fresh[i]}
+			unstable = unstable || !allSame(runs)
 			ridc := "None"
 			if rid == "bad" {
 				ridc = "(Some " + lit(nil) + ")"
@@ -743,6 +746,7 @@ func run(raw json.RawMessage) lib.Case {
 		for i, t := range in.Tokens {
 			again, second := tokenIDs(&in, i)
 			runs := []string{first[i], again, second, fresh[i]}
+			unstable = unstable || !allSame(runs)
 			items[i] = fmt.Sprintf("((Tok %s %s %s %s %s %s), %s)", litHex(t[0]), litHex(t[1]), litHex(t[2]), litHex(t[3]), litHex(t[4]), litHex(t[5]),
 				coqObs(runs, nil, tokenOracle(t)))
 		}
@@ -751,6 +755,7 @@ func run(raw json.RawMessage) lib.Case {
 			var o orc
 			o.u3(append([]byte(nsURL+"protocolname/"), unhex(nm)...))
 			runs := []string{first[i], protoID(nm), fresh[i]}
+			unstable = unstable || !allSame(runs)
 			items[i] = "(" + litHex(nm) + ", " + coqObs(runs, nil, o) + ")"
 		}
 	case "services":
@@ -759,6 +764,7 @@ func run(raw json.RawMessage) lib.Case {
 			o.u5(unhex(nm))
 			f, s := serviceID(nm)
 			runs := []string{first[i], f, s, fresh[i]}
+			unstable = unstable || !allSame(runs)
 			items[i] = "(" + litHex(nm) + ", " + coqObs(runs, nil, o) + ")"
 		}
 	case "servers":
@@ -769,6 +775,7 @@ func run(raw json.RawMessage) lib.Case {
 			}
 			f, s := serverID(k)
 			runs := []string{first[i], f, s, fresh[i]}
+			unstable = unstable || !allSame(runs)
 			items[i] = "(" + kt.ref(k) + ", " + coqObs(runs, nil, o) + ")"
 		}
 	case "nodes":
@@ -778,6 +785,7 @@ func run(raw json.RawMessage) lib.Case {
 				o.u5([]byte(getKey(k).str))
 			}
 			runs := []string{first[i], nodeID(k), fresh[i]}
+			unstable = unstable || !allSame(runs)
 			items[i] = "(" + kt.ref(k) + ", " + coqObs(runs, nil, o) + ")"
 		}
 	}
@@ -815,12 +823,21 @@ func run(raw json.RawMessage) lib.Case {
 	c := lib.Case{Coq: coq, Class: in.Kind + "-" + in.Label, Obs: o, Nontrivial: n > 1}
 	// A group in which two different objects share an id (or two equal objects do
 	// not) is reported with the two objects alone as its replay input.
-	if i, j, ok := offendingPair(&in, first); ok {
+	if i, j, ok := offendingPair(&in, first); ok && !unstable {
 		c.Input = subGroup(&in, i, j)
 		o.Pair = []string{objectKey(&in, i), objectKey(&in, j), first[i], first[j]}
 		c.Obs = o
 	}
 	return c
+}
+
+func allSame(l []string) bool {
+	for _, x := range l {
+		if x != l[0] {
+			return false
+		}
+	}
+	return true
 }
 
 // objectKey is a canonical text of object i of the group (what the id is meant to identify)
